@@ -87,8 +87,15 @@ def _build(spec, task_overrides, ns, m):
                                  workamount_skill_mean_map=dict(f["skills"]), absence_time_list=list(f["absence"]))
             facs.append(fo)
             m.facs[f["id"]] = fo
-        m.wps.append(ns.BaseWorkplace(w["name"], ID=fresh(w["id"]), facility_list=facs, max_space_size=w["max_space"]))
+        if w.get("ctor_inputs") and all(j < k for j in w["inputs"]):
+            # links given to the constructor are one-sided (the input workplace's output list is not touched)
+            m.wps.append(ns.BaseWorkplace(w["name"], ID=fresh(w["id"]), facility_list=facs, max_space_size=w["max_space"],
+                                          input_workplace_list=[m.wps[j] for j in w["inputs"]]))
+        else:
+            m.wps.append(ns.BaseWorkplace(w["name"], ID=fresh(w["id"]), facility_list=facs, max_space_size=w["max_space"]))
     for k, w in enumerate(spec["wps"]):
+        if w.get("ctor_inputs") and all(j < k for j in w["inputs"]):
+            continue
         for j in w["inputs"]:
             m.wps[k].append_input_workplace(m.wps[j])
         for i in w["targets"]:
